@@ -10,7 +10,9 @@ use std::net::Ipv4Addr;
 fn now() -> u32 {
     std::time::SystemTime::now().duration_since(std::time::SystemTime::UNIX_EPOCH).unwrap().as_secs() as u32
 }
-const ADDRS: [Ipv4Addr; 3] = [Ipv4Addr::new(192, 0, 2, 1), Ipv4Addr::new(192, 0, 2, 2), Ipv4Addr::new(192, 0, 2, 3)];
+// three addresses whose order as TEXT (the type of the `address` column: "192.0.2.10" < "192.0.2.100" < "192.0.2.9") differs from their
+// numeric order (9 < 10 < 100), so that a statement comparing addresses as strings cannot pass by accident
+const ADDRS: [Ipv4Addr; 3] = [Ipv4Addr::new(192, 0, 2, 9), Ipv4Addr::new(192, 0, 2, 10), Ipv4Addr::new(192, 0, 2, 100)];
 const CLIENTS: [&[u8]; 2] = [b"c1", b"c2"];
 // expiry relative to now (seconds); |delta| >= 100 so that a one-second tick during a run cannot change a verdict
 const DELTAS: [i64; 3] = [-100, 100, 200];
@@ -180,6 +182,29 @@ fn verif_sql_contracts() {
         }
     }
     for x in [&t_c01, &t_c02, &t_c09s, &t_c09g, &t_c09r, &t_c09e, &t_c10, &t_frame] { x.done(); }
+
+    // ---- C09 "refused for lack of addresses only when every address of that pool is held": a LARGE pool (600 addresses, more than any
+    //      small constant a scan might be cut at) in which every address but one is held, unexpired, by another client -- a new client
+    //      must be given exactly the free one.  4 client ids (different hash orders) x 3 positions of the free address. ----
+    let mut t_big = Tally::new("allocate_address/C09-large-pool-last-free-address");
+    let big: Vec<Ipv4Addr> = (0..600u32).map(|k| Ipv4Addr::from(0x0A09_0000u32 + 1 + k)).collect();
+    let mut big_pool = PoolAddresses::default();
+    for a in &big { big_pool.insert(*a); }
+    for free in [0usize, 299, 599] {
+        for cid in [&b"n1"[..], &b"n2"[..], &b"n3"[..], &b"n4"[..]] {
+            let mut p = mk(&vec![]);
+            let t0 = now();
+            for (k, a) in big.iter().enumerate() {
+                if k != free {
+                    p.conn.execute("INSERT INTO leases (address, clientid, start, expiry) VALUES (?1, ?2, ?3, ?4)",
+                        rusqlite::params![a.to_string(), &b"holder"[..], t0 - 10, t0 + 1000]).expect("insert");
+                }
+            }
+            let got = p.allocate_address(cid, None, &big_pool, DEFAULT_MIN_LEASE, DEFAULT_MAX_LEASE, b"");
+            t_big.check(got.as_ref().map(|l| l.ip).ok() == Some(big[free]), || format!("600-address pool, all held by another client except {}: client {:?} got {:?}", big[free], cid, got));
+        }
+    }
+    t_big.done();
 
     // ---- get_pool_metrics (C20): active = |{expiry > now}|, expired = |{expiry <= now}|, total on the empty table ----
     let mut t_met = Tally::new("sql_metrics/get_pool_metrics");
